@@ -135,7 +135,7 @@ class Interp(Ops):
         return self._uf_plain(o, name, ft)
 
     def _uf_plain(self, o, name, ft):
-        if ft[0] == "obj":
+        if ft[0] in ("obj", "symobj"):
             f = z3.Function(f"{o.cls}.{name}", obj_sort(o.cls), obj_sort(ft[1]))
             return VObj(ft[1], f(o.ref))
         f = z3.Function(f"{o.cls}.{name}", obj_sort(o.cls), sort_of_type(ft))
@@ -558,6 +558,13 @@ class Interp(Ops):
         ci = self.repo.cls(o.cls)
         if ci is not None:
             fi = self.repo.find_method(ci, attr)
+            if fi is None and attr.startswith("_") and "__" in attr[1:]:
+                # privately mangled method name: _Class__name
+                for c2 in self.repo.mro(ci):
+                    pre = "_" + c2.name.lstrip("_") + "__"
+                    if attr.startswith(pre) and ("__" + attr[len(pre):]) in c2.methods:
+                        fi = c2.methods["__" + attr[len(pre):]]
+                        break
             if fi is not None:
                 if "property" in fi.decorators:
                     return self.call_function(VMethod(o, o.cls, attr, fi), [], {}, None, is_property=True)
@@ -746,7 +753,11 @@ class Interp(Ops):
         args = []
         for a in e.args:
             if isinstance(a, ast.Starred):
-                args.extend(self.iterate(self.eval(a.value, fr)))
+                sv = self.eval(a.value, fr)
+                try:
+                    args.extend(self.iterate(sv))
+                except Unsupported:
+                    args.append(VStar(sv))
             else:
                 args.append(self.eval(a, fr))
         kwargs = {}
@@ -810,6 +821,13 @@ class Interp(Ops):
             return self.apply_contract(c, am, node, awaited=awaited)
         if isinstance(fn, VClass):
             return self.instantiate(fn.name, args, kwargs, node)
+        if isinstance(fn, VObj):
+            c = self.find_contract_for_method(fn.cls, "__call__")
+            if c is None:
+                raise Unsupported(f"call of an object of class {fn.cls} without contract {fn.cls}.__call__")
+            if c.is_async and not awaited:
+                return VCoro(fn, args, kwargs, node)
+            return self.apply_contract(c, self.argmap_for(None, c, fn, args, kwargs), node, awaited=awaited)
         if isinstance(fn, VOpaque):
             tag = fn.tag or "callable"
             c = self.db.lookup(f"{tag}.__call__")
@@ -848,10 +866,12 @@ class Interp(Ops):
             names = [f[0] for f in ci.fields]
             vals = dict(zip(names, args))
             vals.update(kwargs)
-            t = VTuple([vals[n] for n in names])
-            t.names = names
-            t.cls = cls
-            return t
+            for (n, _ann, default) in ci.fields:
+                if n not in vals:
+                    if default is None:
+                        raise_("TypeError", f"missing argument {n}")
+                    vals[n] = self.eval(default, Frame(FuncInfo("<class>", ci.path, ci.node, ci, ci.module, [], ""), cls=ci))
+            return self.new_obj(cls, {n: vals[n] for n in names})
         if ci.is_dataclass:
             fields = self.repo.all_fields(ci)
             names = [f[0] for f in fields]
